@@ -846,6 +846,8 @@ void OPNMIDIplay::realTime_BankChangeLSB(uint8_t channel, uint8_t lsb)
     if(static_cast<size_t>(channel) > m_midiChannels.size())
         channel = channel % 16;
     m_midiChannels[channel].bank_lsb = lsb;
+    if((m_synthMode & Mode_GS) == 0)// Don't use XG drums on GS synth mode
+        m_midiChannels[channel].is_xg_percussion = isXgPercChannel(m_midiChannels[channel].bank_msb, m_midiChannels[channel].bank_lsb);
 }
 
 void OPNMIDIplay::realTime_BankChangeMSB(uint8_t channel, uint8_t msb)
@@ -853,6 +855,8 @@ void OPNMIDIplay::realTime_BankChangeMSB(uint8_t channel, uint8_t msb)
     if(static_cast<size_t>(channel) > m_midiChannels.size())
         channel = channel % 16;
     m_midiChannels[channel].bank_msb = msb;
+    if((m_synthMode & Mode_GS) == 0)// Don't use XG drums on GS synth mode
+        m_midiChannels[channel].is_xg_percussion = isXgPercChannel(m_midiChannels[channel].bank_msb, m_midiChannels[channel].bank_lsb);
 }
 
 void OPNMIDIplay::realTime_BankChange(uint8_t channel, uint16_t bank)
@@ -861,6 +865,8 @@ void OPNMIDIplay::realTime_BankChange(uint8_t channel, uint16_t bank)
         channel = channel % 16;
     m_midiChannels[channel].bank_lsb = uint8_t(bank & 0xFF);
     m_midiChannels[channel].bank_msb = uint8_t((bank >> 8) & 0xFF);
+    if((m_synthMode & Mode_GS) == 0)// Don't use XG drums on GS synth mode
+        m_midiChannels[channel].is_xg_percussion = isXgPercChannel(m_midiChannels[channel].bank_msb, m_midiChannels[channel].bank_lsb);
 }
 
 void OPNMIDIplay::setDeviceId(uint8_t id)
